@@ -1,8 +1,60 @@
 import Oracle.Util
-/-! Oracle handlers for C09 (model functions exposed on the line protocol). -/
+import Oracle.C01
+import Oracle.C08
+import MobiusModel.Transfers
+/-! Oracle handlers for C09 (model functions exposed on the line protocol).
+
+  The state of the two names is passed as lengths (`-` = absent); contents are zero-filled on this
+  side and compared by the harness against the client's data.  Connection bytes use the `hexz` form. -/
 namespace Oracle
 open Mobius
 
-def c09Handlers : List (String × Handler) := []
+def stOfArgs (fin inc : String) : UpState :=
+  { final := (optNum fin).map (fun n => List.replicate n 0), inc := (optNum inc).map (fun n => List.replicate n 0) }
+
+def optLen (o : Option Bytes) : String := match o with | some b => toString b.length | none => "-"
+
+def stStr (st : UpState) : String := s!"{optLen st.final} {optLen st.inc}"
+
+def c09Handlers : List (String × Handler) := [
+  -- uphandle <final> <inc> <resume 0|1>
+  ("uphandle", fun (a : List String) => match a with
+    | [fin, inc, rs] => match handleUploadFile (stOfArgs fin inc) (rs == "1") with
+      | .refused => "refused"
+      | .noReply => "noreply"
+      | .ok none => "ok"
+      | .ok (some off) => s!"ok {off} {toHex (uploadResumeData off)}"
+    | _ => "bad-op"),
+  -- upconn <final> <inc> <connection bytes hexz> → new state
+  ("upconn", fun (a : List String) => match a with
+    | [fin, inc, conn] => stStr (uploadConn (stOfArgs fin inc) (hexz conn))
+    | _ => "bad-op"),
+  -- recv <bytes hexz> → appended complete rsrc-written
+  ("recv", fun (a : List String) => match a with
+    | [b] => let r := receiveFile (hexz b); s!"{r.appended.length} {r.complete} {r.rsrc.length}"
+    | _ => "bad-op"),
+  -- upstream <fc> <info 11 tokens> <data length> <rsrc length> → header part and trailer-header part of what a client sends
+  ("upstream", fun (a : List String) => match a with
+    | fc :: rest => match infoOfArgs rest with
+      | some (i, [dl, rl]) =>
+        let s := uploadStream (num fc) i (List.replicate (num dl) 0) (List.replicate (num rl) 0)
+        let hl := 56 + i.size
+        let tr := s.drop (hl + num dl)
+        s!"len={s.length} hdr={toHex (s.take hl)} trailer={toHex (tr.take (tr.length - num rl))}"
+      | _ => "bad-op"
+    | _ => "bad-op"),
+  -- uprun <ref> <fc> <info 11 tokens> <data length> <rsrc length> <cuts…> → the state after every attempt
+  ("uprun", fun (a : List String) => match a with
+    | ref :: fc :: rest => match infoOfArgs rest with
+      | some (i, dl :: rl :: cuts) =>
+        let d := List.replicate (num dl) 0
+        let r := List.replicate (num rl) 0
+        let step := fun (acc : UpState × List String) (c : String) =>
+          let st := uploadAttempt (num ref) (num fc) i d r acc.1 (num c)
+          (st, acc.2 ++ [stStr st])
+        " ; ".intercalate (cuts.foldl step ({}, [])).2
+      | _ => "bad-op"
+    | _ => "bad-op")
+]
 
 end Oracle
